@@ -96,9 +96,13 @@ Definition pair_ltb (p q : nat * nat) : bool := Nat.ltb (fst p) (fst q) || (Nat.
 (* ------------------------------------------------------------------ string-variable atoms *)
 Definition str_names : list str :=
   map of_string ["os_name"; "sys_platform"; "platform_machine"; "platform_system"; "platform_version"; "platform_python_implementation";
-                 "implementation_name"; "implementation_version"; "extra"; "extras"; "dependency_groups"]%string.
+                 "implementation_name"; "extra"; "extras"; "dependency_groups"]%string.
 Definition version_like (n : str) : bool :=
-  str_eqb n (of_string "python_version") || str_eqb n (of_string "python_full_version") || str_eqb n (of_string "platform_release").
+  str_eqb n (of_string "python_version") || str_eqb n (of_string "python_full_version") || str_eqb n (of_string "platform_release")
+  || str_eqb n (of_string "implementation_version").
+(* _is_reversed_containment: '"lit" in name' / '"lit" not in name' *)
+Definition rev_in (a : atom) : bool := a_rev a && (mop_eqb (a_op a) MIn || mop_eqb (a_op a) MNotIn).
+Definition rev_in_m (m : marker) : bool := match m with MAtom a => rev_in a | _ => false end.
 Definition pyver_pair (a b : str) : bool :=
   (str_eqb a (of_string "python_version") && str_eqb b (of_string "python_full_version"))
   || (str_eqb a (of_string "python_full_version") && str_eqb b (of_string "python_version")).
@@ -149,7 +153,8 @@ Section Normaliser.
 
   (* _merge_single_markers(marker1, marker2, merge_class) *)
   Definition merge_single (kind : bool) (m1 m2 : atom) : option marker :=
-    if pyver_pair (a_name m1) (a_name m2) then vmerge kind m1 m2
+    if rev_in m1 || rev_in m2 then None          (* _is_reversed_containment: '"lit" in name' atoms are never merged *)
+    else if pyver_pair (a_name m1) (a_name m2) then vmerge kind m1 m2
     else if negb (str_eqb (a_name m1) (a_name m2)) then None
     else if version_like (a_name m1) then vmerge kind m1 m2
     else if str_eqb (a_name m1) (of_string "extra") && negb (str_eqb (a_value m1) (a_value m2)) then None
@@ -204,7 +209,7 @@ Section Normaliser.
   (* EqualityMarkerUnion.__and__ / __or__ ; result NotImpl is modelled by None *)
   Definition equ_and (n : str) (vs : list str) (other : marker) : option marker :=
     if negb (is_single other) then None
-    else if negb (str_eqb n (single_name other)) then Some (mk_multi [MEqU n vs; other])
+    else if negb (str_eqb n (single_name other)) || rev_in_m other then Some (mk_multi [MEqU n vs; other])
     else match other with
          | MAtom a => Some (equ_replace n (oset (filter (atom_contains a) vs)))
          | MEqU _ vs' => Some (equ_replace n (oset_and vs vs'))
@@ -212,7 +217,7 @@ Section Normaliser.
          end.
   Definition equ_or (n : str) (vs : list str) (other : marker) : option marker :=
     if negb (is_single other) then None
-    else if negb (str_eqb n (single_name other)) then Some (mk_union [MEqU n vs; other])
+    else if negb (str_eqb n (single_name other)) || rev_in_m other then Some (mk_union [MEqU n vs; other])
     else match other with
          | MAtom a =>
              match a_op a with
@@ -226,7 +231,7 @@ Section Normaliser.
   (* InequalityMultiMarker.__and__ / __or__ *)
   Definition nem_and (n : str) (vs : list str) (other : marker) : option marker :=
     if negb (is_single other) then None
-    else if negb (str_eqb n (single_name other)) then Some (mk_multi [MNeM n vs; other])
+    else if negb (str_eqb n (single_name other)) || rev_in_m other then Some (mk_multi [MNeM n vs; other])
     else match other with
          | MAtom a =>
              match a_op a with
@@ -240,7 +245,7 @@ Section Normaliser.
          end.
   Definition nem_or (n : str) (vs : list str) (other : marker) : option marker :=
     if negb (is_single other) then None
-    else if negb (str_eqb n (single_name other)) then Some (mk_union [MNeM n vs; other])
+    else if negb (str_eqb n (single_name other)) || rev_in_m other then Some (mk_union [MNeM n vs; other])
     else match other with
          | MAtom a => Some (nem_replace n (oset (filter (fun v => negb (atom_contains a v)) vs)))
          | MEqU _ vs' => Some (nem_replace n (oset_sub vs vs'))
